@@ -1,7 +1,7 @@
 CONSTANTS
-  AlphaOf <- FullAlpha
+  AlphaOf <- LineAlpha
   MaxLenOf <- Len2
-  DelimSet <- AllDelims
+  DelimSet <- LineDelims
 INIT Init
 NEXT Next
 INVARIANTS ExportFaithful
